@@ -518,6 +518,15 @@ pub fn run(seed: u64, n: usize, out: &mut dyn Write) {
                         diffs.push(format!("tokenize-output-{}", if mecab { "mecab" } else { "detail" }));
                     }
                     if mecab {
+                        // the whole output through the corpus reader: its examples must be exactly the tokenizer's tokens of the
+                        // input lines (sentences without tokens are dropped) - C19's clause about the program itself
+                        let want: Vec<Vec<(String, String)>> = toks.iter().filter(|t| !t.is_empty()).cloned().collect();
+                        let got: Option<Vec<Vec<(String, String)>>> = guarded(|| Corpus::from_reader(&printed[..]).ok())
+                            .flatten()
+                            .map(|c| c.iter().map(|e| e.tokens().iter().map(|w| (w.surface().to_string(), w.feature().to_string())).collect()).collect());
+                        if got != Some(want) {
+                            diffs.push("tokenize-mecab-tokens-differ".to_string());
+                        }
                         // per sentence: the text the program printed for it, through the corpus reader
                         let mut rest = &printed[..];
                         for (k, t) in toks.iter().enumerate() {
